@@ -73,22 +73,11 @@ func loadAppDB(c *core.Ctx) *appDBFacts {
 			}
 			key, _ := constString(s.Arg(0))
 			if key == "" {
-				// the key is a parameter of a helper (`loadUint64(path string, …)`): one access
-				// per call of the helper, with the key passed there, attributed to the caller
+				// the key is a parameter of a helper (`loadUint64(path string, …)`, `mustGet(path)`):
+				// one access per call of the helper, with the key passed there, attributed to the
+				// caller — followed upwards while the caller itself only hands its own parameter on
 				if pi := paramIndexOf(root, s.Arg(0)); pi >= 0 {
-					found := false
-					for _, cl := range c.SrcFuncs(pkgAppDB) {
-						for _, cs := range core.Sites(cl) {
-							if cs.Common.StaticCallee() != root || pi >= len(cs.Common.Args) {
-								continue
-							}
-							if k, ok := constString(cs.Common.Args[pi]); ok {
-								f.Accesses = append(f.Accesses, &dbAccess{Fn: cl, Site: cs, Write: name != "Get", Key: k})
-								found = true
-							}
-						}
-					}
-					if found {
+					if f.attribute(c, root, pi, name != "Get", 0) {
 						continue
 					}
 				}
@@ -97,6 +86,59 @@ func loadAppDB(c *core.Ctx) *appDBFacts {
 		}
 	}
 	return f
+}
+
+// attribute records one access per call site that passes a constant key for parameter pi of the
+// key-taking helper h (receiver included in the index); a caller that passes one of its own
+// parameters is itself treated as such a helper.
+func (f *appDBFacts) attribute(c *core.Ctx, h *ssa.Function, pi int, write bool, depth int) bool {
+	found := false
+	for _, cl := range c.SrcFuncs(pkgAppDB) {
+		for _, cs := range core.Sites(cl) {
+			if cs.Common.StaticCallee() != h || pi >= len(cs.Common.Args) {
+				continue
+			}
+			if k, ok := constString(cs.Common.Args[pi]); ok {
+				f.Accesses = append(f.Accesses, &dbAccess{Fn: cl, Site: cs, Write: write, Key: k})
+				found = true
+				continue
+			}
+			root := cl
+			for root.Parent() != nil {
+				root = root.Parent()
+			}
+			if qi := paramIndexOf(root, cs.Common.Args[pi]); qi >= 0 && depth < 3 && root == cl {
+				if f.attribute(c, root, qi, write, depth+1) {
+					found = true
+				}
+			}
+		}
+	}
+	return found
+}
+
+// getLike: v is what a read of the store returned — the value of db.Get itself or of a helper of
+// the package that returns it (mustGet).
+func (f *appDBFacts) getLike(v ssa.Value, depth int) bool {
+	call, ok := v.(*ssa.Call)
+	if !ok {
+		return false
+	}
+	if call.Call.IsInvoke() {
+		return call.Call.Method.Name() == "Get" && strings.HasSuffix(core.Path(call.Call.Value), ".db")
+	}
+	h := call.Call.StaticCallee()
+	if h == nil || h.Blocks == nil || core.PkgOf(h) != pkgAppDB || depth > 2 {
+		return false
+	}
+	for i := 0; i < h.Signature.Results().Len(); i++ {
+		for _, o := range core.ResultOrigins(h, i) {
+			if core.DependsOn(o, func(x ssa.Value) bool { return f.getLike(x, depth+1) }) {
+				return true
+			}
+		}
+	}
+	return false
 }
 
 // paramIndexOf: v is (a []byte conversion of) parameter i of fn; -1 otherwise.
